@@ -53,11 +53,21 @@ func (w *World) handler() *handler {
 	h.sendFns = map[*ssa.Function]bool{}
 	if len(a.sites) > 0 {
 		h.sendFn = enclosingNamed(a.sites[0].Parent())
-		for _, f := range w.P.LibFuncs {
+		// only callees of the handler and of the packet processor are ever asked
+		cand := map[*ssa.Function]bool{}
+		pp := w.P.Func("(*Server).processPacket")
+		for _, root := range []*ssa.Function{h.fn, pp} {
+			for _, f := range append([]*ssa.Function{root}, root.AnonFuncs...) {
+				for _, e := range w.CG.Out[f] {
+					cand[e.Callee] = true
+				}
+			}
+		}
+		for f := range cand {
 			if f == h.fn {
 				continue
 			}
-			if _, ok := w.CG.Reach([]*ssa.Function{f}, nil)[h.sendFn]; ok {
+			if w.CG.ReachCtx([]*ssa.Function{f}, w.TS, nil)[h.sendFn] {
 				h.sendFns[f] = true
 			}
 		}
